@@ -259,7 +259,8 @@ MUTANTS = {
     ],
     "C34": [
         m("parse-error-escapes", "redun/tags.py", "        except ValueError:\n            # Strings that look like malformed JSON (e.g. \"[abc\") must be quoted.\n            pass", "        except KeyError:\n            pass", "C34.1"),
-        m("raw-without-reparse-test", "redun/tags.py", "        try:\n            if isinstance(parse_tag_value(value), str):\n                return value\n        except ValueError:\n            # Strings that look like malformed JSON (e.g. \"[abc\") must be quoted.\n            pass", "        return value", "C34.2"),
+        m("raw-guard-weakened-to-isinstance", "redun/tags.py", "            if parse_tag_value(value) == value:", "            if isinstance(parse_tag_value(value), str):", "C34.2"),
+        m("raw-without-reparse-test", "redun/tags.py", "            if parse_tag_value(value) == value:", "            if True:", "C34.2"),
         m("float-before-int", "redun/tags.py", "    try:\n        return int(value_str)\n    except ValueError:\n        pass\n\n    try:\n        return float(value_str)\n    except ValueError:\n        pass", "    try:\n        return float(value_str)\n    except ValueError:\n        pass\n\n    try:\n        return int(value_str)\n    except ValueError:\n        pass", "C34.3"),
     ],
     "C35": [
